@@ -32,6 +32,9 @@ std::vector<Sub> vh_subs() {
       ctx.cls(mt == FFT64 ? "module:FFT64" : "module:NTT120");
       ctx.cls(mask ? "cfg:generic" : "cfg:full");
       if (m.full_chain) ctx.cls("chain:dft->product->idft->bigop->normalize");
+      ctx.cls(m.shared_scratch ? "scratch:one-shared-buffer" : "scratch:fresh-per-call");
+      if (m.loop_shared) ctx.cls("loop:matrices-on-same-input,shared-scratch,k:" + std::to_string(k));
+      if (m.loop_shared && k >= 10) ctx.cls("loop:matrices-on-same-input,shared-scratch,N>=1024");
       ctx.cls("lineage_flags:" + std::to_string(nf));
       for (auto& t : m.trace) {
         size_t e = t.find("= ");
